@@ -16,7 +16,7 @@ F(name, b) == IF b THEN {} ELSE {name}
 
 (* ---- C08 ---- *)
 LineLevels(s, ln) ==
-  [i \in DOMAIN ln.runs |-> IF ln.runs[i].tr THEN s.cfg.pdir
+  [i \in DOMAIN ln.runs |-> IF ln.runs[i].tr THEN (IF s.cfg.tdir = s.cfg.pdir THEN s.cfg.pdir ELSE s.cfg.pdir + 1)
                             ELSE IF HasRun(s, ln.runs[i].off) THEN s.runs[RunOf(s, ln.runs[i].off)].lvl ELSE s.cfg.pdir]
 VisPerm(s, ln) == IsPerm([i \in DOMAIN ln.runs |-> ln.runs[i].vi], Len(ln.runs))
 VisL2(s, ln) == [i \in DOMAIN ln.runs |-> ln.runs[i].vi] = Visual(LineLevels(s, ln))
@@ -84,7 +84,11 @@ Abnormal == /\ l <= Len(Trace) /\ Trace[l].ev = "X"
             /\ fails' = fails \cup {[line |-> l, pred |-> "Total"]}
             /\ done' = TRUE /\ UNCHANGED <<sc, pos, k, stats>> /\ l' = l + 1
 
-Next == Prepare \/ Line \/ Abnormal
+(* the caller abandons the paragraph before it is finished (the wrapper object is re-used afterwards) *)
+Abandon == /\ l <= Len(Trace) /\ Trace[l].ev = "A"
+           /\ done' = TRUE /\ UNCHANGED <<sc, pos, k, fails, stats>> /\ l' = l + 1
+
+Next == Prepare \/ Line \/ Abnormal \/ Abandon
 Keep == TLCSet(1, fails) /\ TLCSet(2, stats)
 Post == /\ TLCGet("stats").diameter - 1 = Len(Trace)
         /\ JsonSerialize(IOEnv.VERIF_OUT, [n |-> Len(Trace), fails |-> TLCGet(1), stats |-> TLCGet(2)])
